@@ -61,6 +61,11 @@ REASM = {'test': 'TestVerifReasm', 'comp': 'reasm', 'quick': {'VERIF_N': 300, 'V
 CODEC = {'test': 'TestVerifCodec', 'comp': 'codec', 'quick': {'VERIF_N': 1500}, 'thorough': {'VERIF_N': 25000},
          'seeds': {'quick': 1, 'thorough': 4}}
 
+# stream API layer (WriteSCTP / packetize / sendPayloadData incl. blocking-write mode, Close, ReadSCTP / SetReadDeadline) on one
+# real Association driven single-threaded: L0 model Sapi (on top of Sender + Reasm) replays every line; predicates tagged [C18] / [C06]
+SAPI = {'test': 'TestVerifStreamAPI', 'comp': 'sa', 'corpus_glob': 'sapi_*.ops', 'quick': {'VERIF_N': 120, 'VERIF_OPS': 150},
+        'thorough': {'VERIF_N': 600, 'VERIF_OPS': 220}, 'seeds': {'quick': 1, 'thorough': 8}}
+
 PROPS = {
     'C05': {'jobs': [RQ, ARCV]},
     'C16': {'jobs': [GENF, RQ, ASND, ARCV, RSD]},
@@ -77,7 +82,12 @@ PROPS = {
         'C11_bytes_bound / C11_credit_formula_bounded assume buffer + 40000 x (largest chunk) < 2^32 (bytesQueued is a uint32) and fewer than 2^63 user bytes in total',
         'receive-half model Model/Receiver.lean is hand-written; its straight-line tests are translator-generated; tied by replaying every op of TestVerifAssocReceiver']},
     'C02': {'jobs': [E2E_T, ASND], 'rule': E2E_RULE},
-    'C06': {'jobs': [E2E_PR, E2E_T, E2E_API, REASM, ASND], 'rule': E2E_RULE},
+    'C06': {'jobs': [SAPI, E2E_PR, E2E_T, E2E_API, REASM, ASND], 'rule': E2E_RULE, 'assumptions': [
+        'theorems cover the API-visible half (DCEP, abandonment decision, retransmission bounds); the receive half (at most once, intact, subsequence) rests on Reasm + e2e predicates',
+        'L0 models Sender + Sapi (hand-written, Gen.* decision sites regenerated); oracles: burst budget, pending-queue selection, RACK/PTO marks, T3 expiries per tick, which parked writer wakes',
+        'bounds hold while the policy is in force: FORWARD-TSN negotiated (prEnabled), stream in the association table, no openS/setRel on it during the run; MTU < 2^30',
+        'nSent is the transmission count (stamped by the model on every chunk it puts in a packet; compared with the implementation per chunk per gather)',
+        'known finding D14 (fragmented messages: bounds hold for the last fragment only; witness decided and replayed); D21 (abandoned chunk retransmitted through a stale mark) is fixed in /repo (6ddfdda), its witnesses are regression guards']},
     'C07': {'jobs': [E2E_PR, ASND], 'rule': E2E_RULE},
     'C08': {'jobs': [SDD, dict(E2E_SD, corpus_glob='e2e_*.ops')], 'assumptions': [
         'theorems are about the L0 model Sd (two established endpoints + packet histories); the model is replayed line by line against two real established associations (TestVerifShutdown: real readLoop and real Shutdown call, write loop stepped explicitly, timers fired explicitly)',
@@ -111,7 +121,13 @@ PROPS = {
         'per-stream theorems carry the D9 hypothesis (a stream stays in the association table while it has data outstanding) and assume no uint64 wrap of bufferedAmount (ghost flag wrapBuf)',
         'callback-unlocked is decided on translator-extracted control-flow paths of onBufferReleased and the statements around its call site (syntactic), plus a dynamic TryLock probe in the harness',
     ]},
-    'C18': {'jobs': [E2E_API, E2E_SD], 'rule': E2E_RULE},
+    'C18': {'jobs': [SAPI, E2E_API, E2E_SD], 'rule': E2E_RULE, 'assumptions': [
+        'L0 model Sapi on top of Sender and Reasm; conditions of WriteSCTP / sendPayloadData / notifyBlockWritable are regenerated Gen.* sites; structure tied by the direct-drive replay',
+        'single-threaded abstraction: one API call at a time, everything runnable has run before the next op; a second write on a stream with a parked writer (write lock) and a second reader are not issued',
+        'which parked writer a writeNotify token wakes is an oracle input; the token itself is not state (a parked writer has consumed any stale token and found writePending still up)',
+        'run theorems start from any state satisfying WInv / GInv (initial state of every configuration with MTU < 2^30: C18_invariant_reachable)',
+        'C18_parked_write_rollback: equality up to the two ghost id allocators nextWid / nextMsg',
+        'observation (not a C18 clause): while a write is parked bufferedAmount includes its bytes, and the roll-back subtracts them without onBufferReleased - a low-threshold crossing can be skipped']},
     'C09': {'jobs': [E2E_TD, E2E_SD, E2E_HS], 'rule': E2E_RULE},
     'C19': {'jobs': [RTO, TIMER, ARCV], 'assumptions': [
         'float64 arithmetic of rtoManager / calculateNextTimeout is proved over Rat; the Float instance is compared with the Go code bit for bit on sampled sequences',
